@@ -263,6 +263,69 @@ def run(ctx):
                     ctx.violation("iter_find_needle on a file object with its own seek() semantics disagrees with the occurrences", {"op": "iter_find_needle", "failed": "file_object_" + name},
                                   {"needle": L(needle), "start": start, "got": str(o[1])[:200], "expected": want[:20]})
         ctx.count_distinct(("fileobj", rep))
+    # a stream that answers read() with fewer bytes than asked for although more follow (allowed for raw streams): nothing
+    # but an empty read means end of data
+    class ShortRead(io.BytesIO):
+        def __init__(self, data, cap):
+            super().__init__(data)
+            self.cap = cap
+
+        def read(self, n=-1):
+            if n is None or n < 0:
+                return super().read(n)
+            return super().read(min(n, self.cap))
+
+    for rep in range(3 if ctx.quick else 30):
+        needle = rng.choice([b"\x00\x01\x00\x01\x00\x02", b"MZ", b"abcabc", bytes(rng.randrange(256) for _ in range(rng.randrange(1, 9)))])
+        hay = bytearray(rng.randrange(256) for _ in range(rng.choice([12000, 40000])))
+        for pos in (0, 4998, 5000 - len(needle) + 1, 8192, 9999, len(hay) - len(needle)):
+            hay[pos : pos + len(needle)] = needle
+        hay = bytes(hay)
+        for cap in (1, 2, len(needle), 5000, 8191):
+            o = core.guarded(lambda: list(utils.iter_find_needle(ShortRead(hay, cap), needle, start_offset=0)), seconds=120)
+            ctx.evaluations += 1
+            want = occurrences(hay, needle)
+            if o != ("ok", want):
+                ctx.violation("iter_find_needle on a stream with short reads disagrees with the occurrences", {"op": "iter_find_needle", "failed": "short_reads"},
+                              {"needle": L(needle), "read_cap": cap, "got": str(o[1])[:200], "expected": want[:20]})
+        ctx.count_distinct(("shortread", rep))
+
+    # ArtifactKit headers around 2 GiB and 4 GiB: a sparse file object (zeros except for the planted dwords) scanned in windows
+    class Sparse:
+        def __init__(self, size, planted):
+            self.size, self.planted, self.pos = size, planted, 0
+
+        def seek(self, off, whence=0):
+            self.pos = off if whence == 0 else self.pos + off if whence == 1 else self.size + off
+            return self.pos
+
+        def tell(self):
+            return self.pos
+
+        def read(self, n=-1):
+            end = self.size if n is None or n < 0 else min(self.size, self.pos + n)
+            out = bytearray(max(0, end - self.pos))
+            for p_, b_ in self.planted.items():
+                for k, v in enumerate(b_):
+                    if self.pos <= p_ + k < end:
+                        out[p_ + k - self.pos] = v
+            self.pos = max(self.pos, end)
+            return bytes(out)
+
+    for base in (2**31, 2**32):
+        heads = [base - 200, base - 16, base + 300] if base == 2**31 else [base - 300, base - 17]
+        planted = {h: struct.pack("<I", (h + 16) & 0xFFFFFFFF) + struct.pack("<I", 3) + b"KEY!" + b"HINTHINT" + b"abc" for h in heads}
+        size = base + 512
+        sp = Sparse(size, planted)
+        lo, hi = min(heads) - 50, min(size, max(heads) + 50)
+        o = core.guarded(lambda: [(p_.offset, p_.size, bytes(p_.xorkey)) for p_ in artifact.iter_artifactkit_payloads(sp, start_offset=lo, maxrange=hi)], seconds=120)
+        ctx.evaluations += 1
+        # a header says "this position + 16" in 32 bits: positions from 2^32 - 16 on cannot be headers
+        want = [(h, 3, b"KEY!") for h in heads if h + 16 < 2**32]
+        if o != ("ok", want):
+            ctx.violation("iter_artifactkit_payloads misses or invents headers in a large file", {"op": "iter_artifactkit_payloads", "failed": "offsets_beyond_2GiB"},
+                          {"around": base, "got": str(o[1])[:200], "expected": [w[0] for w in want]})
+        ctx.count_distinct(("ak_sparse", base))
     for rep in range(1 if ctx.quick else 6):
         size = 200000 + rep * 4099
         f = bytearray(size)
